@@ -890,6 +890,18 @@ def run_elem_case(c):
             problems.append('broadcast in-place operator did not update the original object')
         if not in_place and exact_list(flat(x)) != X:
             problems.append('left operand modified by an out-of-place operation')
+        if not in_place and res is not None and c['op'] not in ('zero', 'one'):
+            # an out-of-place operator returns a NEW element the caller owns (+x, x.copy() too)
+            if res is x or res is y:
+                problems.append('out-of-place result IS one of the operands (same object)')
+            else:
+                try:
+                    shared = any(np.shares_memory(np.asarray(rp), np.asarray(op_))
+                                 for rp in leaf_parts(res) for e in (x, y) for op_ in leaf_parts(e))
+                except Exception:  # noqa
+                    shared = False
+                if shared:
+                    problems.append('out-of-place result shares memory with an operand')
         if y is not x and not (own and in_place) and \
                 exact_list(np.tile(flat(y), len(space)) if bcast else flat(y)) != Y:
             # (an own part used as the broadcast operand of an in-place operation is part of
@@ -1095,6 +1107,70 @@ def run_front(ctx):
         if FRONT_KIND.get(ans) != status:
             ctx.disagree(desc, status, ans)
 
+
+
+def run_front_muldiv(ctx):
+    """Argument checks of the functional forms space.multiply / space.divide / x.multiply(y) /
+    x.divide(y): every argument that is not an element of the space (a foreign space that
+    NumPy could broadcast or cast: one entry, another precision, a shorter product) must be
+    rejected with LinearSpaceTypeError and nothing may be written; well-formed calls must work
+    and return `out` when it is given. Oracle only (the model starts after these checks)."""
+    import odl
+    spaces = [('rn4', odl.rn(4), [odl.rn(1), odl.rn(4, dtype='float32'), odl.rn(5), odl.cn(4)]),
+              ('cn3', odl.cn(3), [odl.cn(1), odl.rn(3), odl.cn(3, dtype='complex64')]),
+              ('discr', odl.uniform_discr(0, 1, 4),
+               [odl.uniform_discr(0, 2, 4), odl.rn(4), odl.uniform_discr(0, 1, 4, dtype='float32')]),
+              ('pspace', odl.ProductSpace(odl.rn(2), odl.rn(3)),
+               [odl.ProductSpace(odl.rn(2), 1), odl.ProductSpace(odl.rn(2), odl.rn(3), odl.rn(1)),
+                odl.ProductSpace(odl.rn(2), odl.rn(3, dtype='float32'))]),
+              ('power', odl.ProductSpace(odl.rn(3), 2), [odl.rn(3), odl.ProductSpace(odl.rn(3), 3)])]
+    for sname, sp, others in spaces:
+        for fname in ('multiply', 'divide'):
+            for pos in ('none', 'x1', 'x2', 'out'):
+                for other in (others if pos != 'none' else [None]):
+                    for form in ('space', 'space-noout', 'elem'):
+                        if form == 'space-noout' and pos == 'out':
+                            continue
+                        if form == 'elem' and pos in ('x1', 'out'):
+                            continue
+                        x1 = (other if pos == 'x1' else sp).one()
+                        x2 = (other if pos == 'x2' else sp).one()
+                        out = (other if pos == 'out' else sp).zero()
+                        x2 *= 2
+                        snap = [np.array(flat(e), copy=True) for e in (x1, x2, out)]
+                        try:
+                            if form == 'space':
+                                res = getattr(sp, fname)(x1, x2, out)
+                                status = 'ok' if res is out else 'ok-but-not-out'
+                            elif form == 'space-noout':
+                                res = getattr(sp, fname)(x1, x2)
+                                status = 'ok' if (res in sp and res is not x1 and res is not x2) \
+                                    else 'bad-result'
+                            else:
+                                res = getattr(x1, fname)(x2)
+                                status = 'ok' if res in sp else 'bad-result'
+                        except odl.set.space.LinearSpaceTypeError:
+                            status = 'err:LinearSpaceTypeError'
+                        except Exception as e:  # noqa
+                            status = 'err:' + type(e).__name__
+                        untouched = all(np.array_equal(p, np.array(flat(e)))
+                                        for p, e in zip(snap, (x1, x2, out)))
+                        desc = {'kind': 'front-muldiv', 'space': sname, 'fn': fname, 'form': form,
+                                'foreign': pos, 'other': repr(other)}
+                        ctx.case(('front-muldiv', sname, fname, form, pos, repr(other)))
+                        ctx.hit('front-muldiv/{}/{}'.format(form, pos))
+                        if pos == 'none':
+                            if status != 'ok':
+                                ctx.violation('front-muldiv well-formed call failed space={} fn={} form={}'
+                                              .format(sname, fname, form), status, desc)
+                        elif status != 'err:LinearSpaceTypeError':
+                            ctx.violation('front-muldiv foreign {} accepted space={} fn={} form={}'
+                                          .format(pos, sname, fname, form),
+                                          '{} from {} -> {} (must raise LinearSpaceTypeError)'.format(
+                                              pos, repr(other), status), desc)
+                        elif not untouched and form != 'space-noout':
+                            ctx.violation('front-muldiv rejected call wrote to an argument space={} fn={}'
+                                          .format(sname, fname), status, desc)
 
 
 def run_nonfinite(ctx):
@@ -1406,6 +1482,7 @@ def run(ctx, deep=False):
             ctx.disagree(desc, {'res': R[:6], 'x': XP[:6], 'y': YP[:6]}, ans[:300])
     # --- malformed calls
     run_front(ctx)
+    run_front_muldiv(ctx)
     run_special(ctx)
     run_nonfinite(ctx)
     # --- product-space lincomb, all alias patterns
